@@ -20,6 +20,7 @@ class Channel:
         self.data = data
         self.via = via            # "udp" or TCPConn
         self.mgmt = mgmt
+        self.last_seen = 0.0      # time of the last frame received on this channel (heartbeat supervision)
         self.rx_expected = 0      # next counter expected from client
         self.tx_seq = 0           # next counter for server->client requests
         self.open = True
@@ -143,6 +144,12 @@ class SimGateway:
         b = self._behaviour("connect")
         k = b.get("k", "ok")
         rec["connect_behaviour"] = k
+        exp = self.script.get("expire_channels_after")
+        if exp:
+            # a server closes a channel on which it saw no ConnectionStateRequest for 120 s (Core 5.4)
+            for c_ in [c_ for c_ in self.channels.values() if self.loop.time() - c_.last_seen > exp]:
+                c_.open = False
+                del self.channels[c_.cid]
         if k == "drop":
             return
         mgmt = cr["type"] == 3
@@ -163,6 +170,7 @@ class SimGateway:
         cid = self.next_cid
         self.next_cid = cid % 255 + 1
         ch = Channel(cid, ctrl, data_ep, via, mgmt)
+        ch.last_seen = self.loop.time()
         self.channels[cid] = ch
         self.last_cid = cid
         rec["channel"] = cid
@@ -185,6 +193,8 @@ class SimGateway:
         if k == "drop":
             return
         status = 0 if cid in self.channels else 0x21
+        if cid in self.channels:
+            self.channels[cid].last_seen = self.loop.time()
         if k == "error":
             status = b.get("status", 0x21)
         ch = self.channels.get(cid)
